@@ -116,10 +116,19 @@ FIRST = []          # the first solves of a run (copies of their arguments and r
 FIRST_LIMIT = 16
 
 
+_SOURCE_BUFFERS = {}
+
+
 def solve(q, kw, **over):
     steady, _ = _import()
     k = dict(kw)
     k.update(over)
+    # the caller's source array: one buffer per shape, refilled in place for every solve (a sweep over emission maps does
+    # exactly that) - the solver must read its contents, not recognise the object
+    q_in = np.asarray(q, dtype=float)
+    buf = _SOURCE_BUFFERS.setdefault(q_in.shape, np.empty(q_in.shape))
+    np.copyto(buf, q_in)
+    q = buf
     # every identity compares several solves that share their argument arrays: a solve must leave them as they were
     watched = {"srf_flx": q, "z": k["z"], "levels": k["levels"]}
     watched.update({"profiles[%d]" % i: a for i, a in enumerate(k["profiles"])})
